@@ -133,6 +133,20 @@ CLAIMED['C05'] = dict(
          'target file cannot tell apart sources with the same leaf name (provenance attributes not compared). Two defects fixed.',
     technique='Coq proof (list reasoning over the classification/decision, reuse of C13/C16 theorems) + in-Coq correspondence evaluation')
 
+CLAIMED['C04'] = dict(
+    text='Coq theorems over the event list of compute() (result writes, flushes, per-slice marks; volatile and durable copy): for ANY batches, '
+         'ANY crash point and both ways of dying the surviving state never has a position marked without its final result; after ANY sequence '
+         'of interruptions (each with its own batch limit / crash point / mode) the final compute() recomputes exactly the unmarked positions and '
+         'ends with every position marked and holding f(row); a kill keeps exactly what the last flush saw. Tie to the code: the translator checks '
+         'the statement order of the loop; systematic fault enumeration interrupts the real run at every file-modifying h5py call x '
+         '{graceful, kill = byte copy at the last flush}, checks the survivors, membership of each survivor in the model\'s crash-state set '
+         '(in coqc), re-construction and resumption with another batch size, sequences of two interruptions.',
+    design='5/C04',
+    note='Trusted: Coq kernel, crash injection by wrapping h5py entry points in the harness process, flush-snapshot definition of durability '
+         '(OS / HDF5 caching between flushes not modelled), translator for the loop order. Partial: torn writes inside one HDF5 call. One defect '
+         'fixed (separate results file never flushed).',
+    technique='Coq proof (invariant over event prefixes, induction over crash sequences) + systematic fault enumeration on the real code')
+
 NOT_YET = {}
 
 TITLES = {}
